@@ -1,0 +1,407 @@
+//go:build verif
+
+// Contracts for the govc verifier (/verif). Comment-only.
+//
+// C11: the walletdb/bdb adapter over bbolt. bbolt itself is assumed (its
+// atomicity / isolation / ordering are its own theorems); what is proved here
+// is what the adapter does with it: the error table, the delegation of every
+// transaction / bucket / cursor method, and the begin-run-commit/rollback
+// protocol of Update and View. bbolt is a ghost call log, see
+// /verif/contracts/external/bbolt.spec.
+
+package bdb
+
+// ---- the sentinels -------------------------------------------------------
+// The eleven bbolt sentinels are distinct errors.New values (bbolt/errors.go):
+// non-nil and pairwise different. Stated through an index function, which
+// exists exactly because they are pairwise different.
+//@ spec func boltErrIdx(e Iface) Int
+//@ axiom bbolt_errs_distinct: boltErrIdx(bbolt.ErrDatabaseNotOpen) == 1 && boltErrIdx(bbolt.ErrInvalid) == 2 && boltErrIdx(bbolt.ErrTxNotWritable) == 3
+//@     && boltErrIdx(bbolt.ErrTxClosed) == 4 && boltErrIdx(bbolt.ErrBucketNotFound) == 5 && boltErrIdx(bbolt.ErrBucketExists) == 6
+//@     && boltErrIdx(bbolt.ErrBucketNameRequired) == 7 && boltErrIdx(bbolt.ErrKeyRequired) == 8 && boltErrIdx(bbolt.ErrKeyTooLarge) == 9
+//@     && boltErrIdx(bbolt.ErrValueTooLarge) == 10 && boltErrIdx(bbolt.ErrIncompatibleValue) == 11 && boltErrIdx(nil) == 0
+// The walletdb sentinels are errors.New values too (walletdb/error.go): non-nil.
+//@ axiom walletdb_errs_nonnil: walletdb.ErrDbNotOpen != nil && walletdb.ErrInvalid != nil && walletdb.ErrTxNotWritable != nil && walletdb.ErrTxClosed != nil
+//@     && walletdb.ErrBucketNotFound != nil && walletdb.ErrBucketExists != nil && walletdb.ErrBucketNameRequired != nil && walletdb.ErrKeyRequired != nil
+//@     && walletdb.ErrKeyTooLarge != nil && walletdb.ErrValueTooLarge != nil && walletdb.ErrIncompatibleValue != nil
+
+// The specified error table.
+//@ spec func convErr(e Iface) Iface = e == bbolt.ErrDatabaseNotOpen ? walletdb.ErrDbNotOpen : (e == bbolt.ErrInvalid ? walletdb.ErrInvalid :
+//@     (e == bbolt.ErrTxNotWritable ? walletdb.ErrTxNotWritable : (e == bbolt.ErrTxClosed ? walletdb.ErrTxClosed :
+//@     (e == bbolt.ErrBucketNotFound ? walletdb.ErrBucketNotFound : (e == bbolt.ErrBucketExists ? walletdb.ErrBucketExists :
+//@     (e == bbolt.ErrBucketNameRequired ? walletdb.ErrBucketNameRequired : (e == bbolt.ErrKeyRequired ? walletdb.ErrKeyRequired :
+//@     (e == bbolt.ErrKeyTooLarge ? walletdb.ErrKeyTooLarge : (e == bbolt.ErrValueTooLarge ? walletdb.ErrValueTooLarge :
+//@     (e == bbolt.ErrIncompatibleValue ? walletdb.ErrIncompatibleValue : e))))))))))
+//@ macro IS_BOLT_SENTINEL(e) = (e == bbolt.ErrDatabaseNotOpen || e == bbolt.ErrInvalid || e == bbolt.ErrTxNotWritable || e == bbolt.ErrTxClosed
+//@     || e == bbolt.ErrBucketNotFound || e == bbolt.ErrBucketExists || e == bbolt.ErrBucketNameRequired || e == bbolt.ErrKeyRequired
+//@     || e == bbolt.ErrKeyTooLarge || e == bbolt.ErrValueTooLarge || e == bbolt.ErrIncompatibleValue)
+
+//@ func convertErr(err) (r)
+//@   property C11
+//@   pure
+//@   ensures total_mapping: r == convErr(err)
+//@   ensures nil_to_nil: err == nil ==> r == nil
+//@   ensures nonnil_stays_nonnil: err != nil ==> r != nil
+//@   ensures others_unchanged: !IS_BOLT_SENTINEL(err) ==> r == err
+//@   ensures open_errors: (err == bbolt.ErrDatabaseNotOpen ==> r == walletdb.ErrDbNotOpen) && (err == bbolt.ErrInvalid ==> r == walletdb.ErrInvalid)
+//@   ensures tx_errors: (err == bbolt.ErrTxNotWritable ==> r == walletdb.ErrTxNotWritable) && (err == bbolt.ErrTxClosed ==> r == walletdb.ErrTxClosed)
+//@   ensures bucket_errors: (err == bbolt.ErrBucketNotFound ==> r == walletdb.ErrBucketNotFound) && (err == bbolt.ErrBucketExists ==> r == walletdb.ErrBucketExists)
+//@       && (err == bbolt.ErrBucketNameRequired ==> r == walletdb.ErrBucketNameRequired) && (err == bbolt.ErrIncompatibleValue ==> r == walletdb.ErrIncompatibleValue)
+//@   ensures key_errors: (err == bbolt.ErrKeyRequired ==> r == walletdb.ErrKeyRequired) && (err == bbolt.ErrKeyTooLarge ==> r == walletdb.ErrKeyTooLarge)
+//@       && (err == bbolt.ErrValueTooLarge ==> r == walletdb.ErrValueTooLarge)
+
+// ---- helpers ---------------------------------------------------------------
+// the bbolt transaction behind a walletdb transaction value of this package
+//@ macro BTX(i) = select(@H(transaction.boltTx), i.val)
+// index of the bbolt call a one-call adapter method makes, and its error
+//@ macro THE_CALL() = old(boltCalls)
+//@ macro THE_ERR() = convErr(boltResult(old(boltCalls)))
+
+// ---- transaction -------------------------------------------------------------
+//@ func (*transaction).ReadWriteBucket(tx, key) (r)
+//@   property C11
+//@   requires nonnil: tx != nil
+//@   ensures delegates: BOLT_LOG(OP_TX_BUCKET(), tx.boltTx) && BOLT_LOG_KEY(old(bytes(key)))
+//@   ensures nil_is_nil_interface: boltRetRef(THE_CALL()) == 0 ==> r == nil
+//@   ensures wraps: boltRetRef(THE_CALL()) != 0 ==> typeis(r, *bucket) && r.val == boltRetRef(THE_CALL())
+
+//@ func (*transaction).ReadBucket(tx, key) (r)
+//@   property C11
+//@   requires nonnil: tx != nil
+//@   ensures delegates: BOLT_LOG(OP_TX_BUCKET(), tx.boltTx) && BOLT_LOG_KEY(old(bytes(key)))
+//@   ensures nil_is_nil_interface: boltRetRef(THE_CALL()) == 0 ==> r == nil
+//@   ensures wraps: boltRetRef(THE_CALL()) != 0 ==> typeis(r, *bucket) && r.val == boltRetRef(THE_CALL())
+
+//@ func (*transaction).CreateTopLevelBucket(tx, key) (r, err)
+//@   property C11
+//@   requires nonnil: tx != nil
+//@   ensures delegates: BOLT_LOG(OP_TX_CREATE_IFNE(), tx.boltTx) && BOLT_LOG_KEY(old(bytes(key)))
+//@   ensures error_converted: err == THE_ERR()
+//@   ensures failed: boltResult(THE_CALL()) != nil ==> r == nil
+//@   ensures wraps: boltResult(THE_CALL()) == nil ==> typeis(r, *bucket) && r.val == boltRetRef(THE_CALL())
+
+//@ func (*transaction).DeleteTopLevelBucket(tx, key) (r)
+//@   property C11
+//@   requires nonnil: tx != nil
+//@   ensures delegates: BOLT_LOG(OP_TX_DELETE_BUCKET(), tx.boltTx) && BOLT_LOG_KEY(old(bytes(key)))
+//@   ensures error_converted: r == THE_ERR()
+
+//@ func (*transaction).Commit(tx) (r)
+//@   property C11
+//@   requires nonnil: tx != nil
+//@   ensures delegates: BOLT_LOG(OP_TX_COMMIT(), tx.boltTx)
+//@   ensures counted: boltCommitCnt == store(old(boltCommitCnt), tx.boltTx, select(old(boltCommitCnt), tx.boltTx) + 1) && boltRollbackCnt == old(boltRollbackCnt)
+//@   ensures error_converted: r == THE_ERR()
+
+//@ func (*transaction).Rollback(tx) (r)
+//@   property C11
+//@   requires nonnil: tx != nil
+//@   ensures delegates: BOLT_LOG(OP_TX_ROLLBACK(), tx.boltTx)
+//@   ensures counted: boltRollbackCnt == store(old(boltRollbackCnt), tx.boltTx, select(old(boltRollbackCnt), tx.boltTx) + 1) && boltCommitCnt == old(boltCommitCnt)
+//@   ensures error_converted: r == THE_ERR()
+
+//@ func (*transaction).OnCommit(tx, f)
+//@   property C11
+//@   requires nonnil: tx != nil
+//@   ensures delegates: BOLT_LOG(OP_TX_ONCOMMIT(), tx.boltTx) && BOLT_LOG_ARG(f)
+
+// ForEachBucket hands bbolt a closure that forwards each bucket name to fn
+// and returns fn's answer.
+//@ ghost cbCalls Int
+//@ ghost cbKey Bytes
+//@ ghost cbRet Iface
+//@ func (*transaction).ForEachBucket$1@fn(key) (err)
+//@   trusted
+//@   modifies cbCalls, cbKey, cbRet
+//@   ensures logged: cbCalls == old(cbCalls) + 1 && cbKey == old(bytes(key)) && cbRet == err
+//@ func (*transaction).ForEachBucket$1(name, _) (r)
+//@   property C11
+//@   ensures forwards: cbCalls == old(cbCalls) + 1 && cbKey == old(bytes(name)) && r == cbRet
+//@ func (*transaction).ForEachBucket(tx, fn) (r)
+//@   property C11
+//@   requires nonnil: tx != nil
+//@   ensures delegates: boltCalls > old(boltCalls) && select(boltOp, THE_CALL()) == OP_TX_FOREACH() && select(boltRecv, THE_CALL()) == tx.boltTx
+//@   ensures error_converted: r == THE_ERR()
+
+// ---- bucket ------------------------------------------------------------------
+//@ func (*bucket).NestedReadWriteBucket(b, key) (r)
+//@   property C11
+//@   ensures delegates: BOLT_LOG(OP_B_BUCKET(), b) && BOLT_LOG_KEY(old(bytes(key)))
+//@   ensures nil_is_nil_interface: boltRetRef(THE_CALL()) == 0 ==> r == nil
+//@   ensures wraps: boltRetRef(THE_CALL()) != 0 ==> typeis(r, *bucket) && r.val == boltRetRef(THE_CALL())
+
+//@ func (*bucket).NestedReadBucket(b, key) (r)
+//@   property C11
+//@   ensures delegates: BOLT_LOG(OP_B_BUCKET(), b) && BOLT_LOG_KEY(old(bytes(key)))
+//@   ensures nil_is_nil_interface: boltRetRef(THE_CALL()) == 0 ==> r == nil
+//@   ensures wraps: boltRetRef(THE_CALL()) != 0 ==> typeis(r, *bucket) && r.val == boltRetRef(THE_CALL())
+
+//@ func (*bucket).CreateBucket(b, key) (r, err)
+//@   property C11
+//@   ensures delegates: BOLT_LOG(OP_B_CREATE(), b) && BOLT_LOG_KEY(old(bytes(key)))
+//@   ensures error_converted: err == THE_ERR()
+//@   ensures failed: boltResult(THE_CALL()) != nil ==> r == nil
+//@   ensures wraps: boltResult(THE_CALL()) == nil ==> typeis(r, *bucket) && r.val == boltRetRef(THE_CALL())
+
+//@ func (*bucket).CreateBucketIfNotExists(b, key) (r, err)
+//@   property C11
+//@   ensures delegates: BOLT_LOG(OP_B_CREATE_IFNE(), b) && BOLT_LOG_KEY(old(bytes(key)))
+//@   ensures error_converted: err == THE_ERR()
+//@   ensures failed: boltResult(THE_CALL()) != nil ==> r == nil
+//@   ensures wraps: boltResult(THE_CALL()) == nil ==> typeis(r, *bucket) && r.val == boltRetRef(THE_CALL())
+
+//@ func (*bucket).DeleteNestedBucket(b, key) (r)
+//@   property C11
+//@   ensures delegates: BOLT_LOG(OP_B_DELETE_BUCKET(), b) && BOLT_LOG_KEY(old(bytes(key)))
+//@   ensures error_converted: r == THE_ERR()
+
+//@ func (*bucket).ForEach(b, fn) (r)
+//@   property C11
+//@   ensures delegates: boltCalls > old(boltCalls) && select(boltOp, THE_CALL()) == OP_B_FOREACH() && select(boltRecv, THE_CALL()) == b && select(boltArg, THE_CALL()) == fn
+//@   ensures error_converted: r == THE_ERR()
+
+//@ func (*bucket).Put(b, key, value) (r)
+//@   property C11
+//@   ensures delegates: BOLT_LOG(OP_B_PUT(), b) && BOLT_LOG_KEY(old(bytes(key))) && BOLT_LOG_VAL(old(bytes(value)))
+//@   ensures error_converted: r == THE_ERR()
+
+//@ func (*bucket).Get(b, key) (r)
+//@   property C11
+//@   ensures delegates: BOLT_LOG(OP_B_GET(), b) && BOLT_LOG_KEY(old(bytes(key)))
+//@   ensures result: r == boltRetV(THE_CALL())
+
+//@ func (*bucket).Delete(b, key) (r)
+//@   property C11
+//@   ensures delegates: BOLT_LOG(OP_B_DELETE(), b) && BOLT_LOG_KEY(old(bytes(key)))
+//@   ensures error_converted: r == THE_ERR()
+
+//@ func (*bucket).Sequence(b) (r)
+//@   property C11
+//@   ensures delegates: BOLT_LOG(OP_B_SEQUENCE(), b)
+//@   ensures result: r == boltRetInt(THE_CALL())
+
+//@ func (*bucket).ReadWriteCursor(b) (r)
+//@   property C11
+//@   ensures delegates: BOLT_LOG(OP_B_CURSOR(), b)
+//@   ensures wraps: typeis(r, *cursor) && r.val == boltRetRef(THE_CALL())
+
+//@ func (*bucket).ReadCursor(b) (r)
+//@   property C11
+//@   ensures delegates: BOLT_LOG(OP_B_CURSOR(), b)
+//@   ensures wraps: typeis(r, *cursor) && r.val == boltRetRef(THE_CALL())
+
+//@ func (*bucket).Tx(b) (r)
+//@   property C11
+//@   ensures delegates: BOLT_LOG(OP_B_TX(), b)
+//@   ensures wraps: r != nil && typeis(r, *transaction) && r.val != 0 && BTX(r) == boltRetRef(THE_CALL())
+
+// NextSequence / SetSequence can fail in bbolt (ErrTxClosed, ErrTxNotWritable):
+// like every other adapter method the error has to go through the table.
+//@ func (*bucket).NextSequence(b) (r, err)
+//@   property C11
+//@   ensures delegates: BOLT_LOG(OP_B_NEXTSEQ(), b)
+//@   ensures result: r == boltRetInt(THE_CALL())
+//@   ensures error_converted: err == THE_ERR()
+
+//@ func (*bucket).SetSequence(b, v) (r)
+//@   property C11
+//@   ensures delegates: BOLT_LOG(OP_B_SETSEQ(), b) && BOLT_LOG_ARG(v)
+//@   ensures error_converted: r == THE_ERR()
+
+// ---- cursor ------------------------------------------------------------------
+//@ func (*cursor).Delete(c) (r)
+//@   property C11
+//@   ensures delegates: BOLT_LOG(OP_C_DELETE(), c)
+//@   ensures error_converted: r == THE_ERR()
+//@ func (*cursor).First(c) (key, value)
+//@   property C11
+//@   ensures delegates: BOLT_LOG(OP_C_FIRST(), c)
+//@   ensures result: key == boltRetK(THE_CALL()) && value == boltRetV(THE_CALL())
+//@ func (*cursor).Last(c) (key, value)
+//@   property C11
+//@   ensures delegates: BOLT_LOG(OP_C_LAST(), c)
+//@   ensures result: key == boltRetK(THE_CALL()) && value == boltRetV(THE_CALL())
+//@ func (*cursor).Next(c) (key, value)
+//@   property C11
+//@   ensures delegates: BOLT_LOG(OP_C_NEXT(), c)
+//@   ensures result: key == boltRetK(THE_CALL()) && value == boltRetV(THE_CALL())
+//@ func (*cursor).Prev(c) (key, value)
+//@   property C11
+//@   ensures delegates: BOLT_LOG(OP_C_PREV(), c)
+//@   ensures result: key == boltRetK(THE_CALL()) && value == boltRetV(THE_CALL())
+//@ func (*cursor).Seek(c, seek) (key, value)
+//@   property C11
+//@   ensures delegates: BOLT_LOG(OP_C_SEEK(), c) && BOLT_LOG_KEY(old(bytes(seek)))
+//@   ensures result: key == boltRetK(THE_CALL()) && value == boltRetV(THE_CALL())
+
+// ---- db: begin / close -------------------------------------------------------
+//@ func (*db).beginTx(db, writable) (r, err)
+//@   property C11
+//@   ensures delegates: BOLT_LOG(OP_DB_BEGIN(), db) && BOLT_LOG_ARG(writable ? 1 : 0) && boltBegins == old(boltBegins) + 1
+//@       && boltCommitCnt == old(boltCommitCnt) && boltRollbackCnt == old(boltRollbackCnt)
+//@   ensures error_converted: err == THE_ERR()
+//@   ensures failed: boltResult(THE_CALL()) != nil ==> r == nil
+//@   ensures ok: boltResult(THE_CALL()) == nil ==> r != nil && r.boltTx == boltRetRef(THE_CALL()) && r.boltTx != nil && boltLastBegun == r.boltTx && boltLastWritable == writable
+
+//@ func (*db).BeginReadTx(db) (r, err)
+//@   property C11
+//@   ensures delegates: BOLT_LOG(OP_DB_BEGIN(), db) && BOLT_LOG_ARG(0) && boltBegins == old(boltBegins) + 1
+//@       && boltCommitCnt == old(boltCommitCnt) && boltRollbackCnt == old(boltRollbackCnt)
+//@   ensures error_converted: err == THE_ERR()
+//@   ensures ok: boltResult(THE_CALL()) == nil ==> r != nil && typeis(r, *transaction) && r.val != 0 && BTX(r) == boltRetRef(THE_CALL()) && BTX(r) != 0 && boltLastBegun == BTX(r) && !boltLastWritable
+
+//@ func (*db).BeginReadWriteTx(db) (r, err)
+//@   property C11
+//@   ensures delegates: BOLT_LOG(OP_DB_BEGIN(), db) && BOLT_LOG_ARG(1) && boltBegins == old(boltBegins) + 1
+//@       && boltCommitCnt == old(boltCommitCnt) && boltRollbackCnt == old(boltRollbackCnt)
+//@   ensures error_converted: err == THE_ERR()
+//@   ensures ok: boltResult(THE_CALL()) == nil ==> r != nil && typeis(r, *transaction) && r.val != 0 && BTX(r) == boltRetRef(THE_CALL()) && BTX(r) != 0 && boltLastBegun == BTX(r) && boltLastWritable
+
+//@ func (*db).Close(db) (r)
+//@   property C11
+//@   ensures delegates: BOLT_LOG(OP_DB_CLOSE(), db)
+//@   ensures error_converted: r == THE_ERR()
+
+// ---- dynamic dispatch of walletdb.ReadTx / ReadWriteTx on a *transaction ------
+// Update and View end their transaction through the walletdb interfaces. For a
+// value whose dynamic type is *bdb.transaction the interface call runs the
+// method verified above; these two clauses are that method's proved contract,
+// guarded by the dynamic type (nothing is said about other implementations).
+// They live here, under the walletdb package name, so that they exist exactly
+// when this package is loaded.
+//@ package github.com/btcsuite/btcwallet/walletdb
+//@ iface ReadTx.Rollback(tx) (err)
+//@   trusted
+//@   modifies boltCalls, boltOp, boltRecv, boltRollbackCnt
+//@   ensures bdb_dispatch: typeis(tx, *bdb.transaction) ==> BOLT_LOG(OP_TX_ROLLBACK(), BTX(tx)) && err == convErr(boltResult(old(boltCalls)))
+//@       && boltRollbackCnt == store(old(boltRollbackCnt), BTX(tx), select(old(boltRollbackCnt), BTX(tx)) + 1)
+//@ iface ReadWriteTx.Commit(tx) (err)
+//@   trusted
+//@   modifies boltCalls, boltOp, boltRecv, boltCommitCnt
+//@   ensures bdb_dispatch: typeis(tx, *bdb.transaction) ==> BOLT_LOG(OP_TX_COMMIT(), BTX(tx)) && err == convErr(boltResult(old(boltCalls)))
+//@       && boltCommitCnt == store(old(boltCommitCnt), BTX(tx), select(old(boltCommitCnt), BTX(tx)) + 1)
+//@ package github.com/btcsuite/btcwallet/walletdb/bdb
+
+// ---- Update / View -------------------------------------------------------------
+// The caller's functions. reset and f are arbitrary; all that is assumed is
+// that they report being called (ghost log) and that f, which may use the
+// transaction (so the bbolt log may grow), does not itself begin, commit or
+// roll back a transaction and leaves the earlier log entries alone.
+//   mgdResetCalls / mgdResetAtCalls / mgdResetAtBegins: number of reset() calls, and the
+//       bbolt call / Begin counters at the time of the last one;
+//   mgdFCalls, mgdFTx, mgdFRet: number of f() calls, the bbolt tx behind the
+//       transaction f was given, and what f returned;
+//   mgdFEndCalls: the bbolt call counter when f returned (= index of the next bbolt call).
+//@ ghost mgdResetCalls Int
+//@ ghost mgdResetAtCalls Int
+//@ ghost mgdResetAtBegins Int
+//@ ghost mgdFCalls Int
+//@ ghost mgdFTx Int
+//@ ghost mgdFRet Iface
+//@ ghost mgdFEndCalls Int
+//@ macro LOG_PREFIX_KEPT() = (forall n Int :: {select(boltOp, n)} n < old(boltCalls) ==> select(boltOp, n) == select(old(boltOp), n))
+//@     && (forall n Int :: {select(boltRecv, n)} n < old(boltCalls) ==> select(boltRecv, n) == select(old(boltRecv), n))
+//@     && (forall n Int :: {select(boltArg, n)} n < old(boltCalls) ==> select(boltArg, n) == select(old(boltArg), n))
+
+//@ func (*db).Update@reset()
+//@   trusted
+//@   modifies mgdResetCalls, mgdResetAtCalls, mgdResetAtBegins
+//@   ensures logged: mgdResetCalls == old(mgdResetCalls) + 1 && mgdResetAtCalls == boltCalls && mgdResetAtBegins == boltBegins
+//@ func (*db).View@reset()
+//@   trusted
+//@   modifies mgdResetCalls, mgdResetAtCalls, mgdResetAtBegins
+//@   ensures logged: mgdResetCalls == old(mgdResetCalls) + 1 && mgdResetAtCalls == boltCalls && mgdResetAtBegins == boltBegins
+
+// f must be handed a live transaction of this package: non-nil, a
+// *transaction over the bbolt transaction just begun, of the right mode.
+//@ func (*db).Update@f(tx) (err)
+//@   trusted
+//@   requires live_rw_tx: tx != nil && typeis(tx, *transaction) && tx.val != 0 && BTX(tx) != 0 && BTX(tx) == boltLastBegun && boltLastWritable
+//@   modifies mgdFCalls, mgdFTx, mgdFRet, mgdFEndCalls, boltCalls, boltOp, boltRecv, boltKey, boltVal, boltArg
+//@   ensures logged: mgdFCalls == old(mgdFCalls) + 1 && mgdFTx == BTX(tx) && mgdFRet == err && mgdFEndCalls == boltCalls
+//@   ensures log_grows: boltCalls >= old(boltCalls) && LOG_PREFIX_KEPT()
+//@ func (*db).View@f(tx) (err)
+//@   trusted
+//@   requires live_ro_tx: tx != nil && typeis(tx, *transaction) && tx.val != 0 && BTX(tx) != 0 && BTX(tx) == boltLastBegun && !boltLastWritable
+//@   modifies mgdFCalls, mgdFTx, mgdFRet, mgdFEndCalls, boltCalls, boltOp, boltRecv, boltKey, boltVal, boltArg
+//@   ensures logged: mgdFCalls == old(mgdFCalls) + 1 && mgdFTx == BTX(tx) && mgdFRet == err && mgdFEndCalls == boltCalls
+//@   ensures log_grows: boltCalls >= old(boltCalls) && LOG_PREFIX_KEPT()
+
+// The deferred closures: when they run they roll the captured transaction
+// back iff it is non-nil. (The generator has no panic edges: that this closure
+// runs when f panics is Go's defer semantics, not something proved here.)
+//@ func (*db).Update$1()
+//@   property C11
+//@   ensures nil_noop: tx == nil ==> boltCalls == old(boltCalls) && boltRollbackCnt == old(boltRollbackCnt) && boltCommitCnt == old(boltCommitCnt)
+//@   ensures rolls_back: tx != nil && typeis(tx, *transaction) ==> BOLT_LOG(OP_TX_ROLLBACK(), BTX(tx)) && boltCommitCnt == old(boltCommitCnt)
+//@       && boltRollbackCnt == store(old(boltRollbackCnt), BTX(tx), select(old(boltRollbackCnt), BTX(tx)) + 1)
+//@ func (*db).View$1()
+//@   property C11
+//@   ensures nil_noop: tx == nil ==> boltCalls == old(boltCalls) && boltRollbackCnt == old(boltRollbackCnt) && boltCommitCnt == old(boltCommitCnt)
+//@   ensures rolls_back: tx != nil && typeis(tx, *transaction) ==> BOLT_LOG(OP_TX_ROLLBACK(), BTX(tx)) && boltCommitCnt == old(boltCommitCnt)
+//@       && boltRollbackCnt == store(old(boltRollbackCnt), BTX(tx), select(old(boltRollbackCnt), BTX(tx)) + 1)
+
+// BEGIN_ERR: what bbolt's Begin (the first bbolt call of Update / View) answered; T: the bbolt tx it returned
+//@ macro BEGIN_ERR() = boltResult(old(boltCalls))
+//@ macro T() = boltRetRef(old(boltCalls))
+
+//@ func (*db).Update(db, f, reset) (r)
+//@   property C11
+//@   ensures reset_once_before_begin: mgdResetCalls == old(mgdResetCalls) + 1 && mgdResetAtCalls == old(boltCalls) && mgdResetAtBegins == old(boltBegins)
+//@   ensures begins_once_writable: boltBegins == old(boltBegins) + 1 && select(boltOp, old(boltCalls)) == OP_DB_BEGIN() && select(boltRecv, old(boltCalls)) == db && select(boltArg, old(boltCalls)) == 1
+//@   ensures begin_error_returned_f_not_called: BEGIN_ERR() != nil ==> r == convErr(BEGIN_ERR()) && r != nil && mgdFCalls == old(mgdFCalls) && boltCalls == old(boltCalls) + 1
+//@       && boltCommitCnt == old(boltCommitCnt) && boltRollbackCnt == old(boltRollbackCnt)
+//@   ensures f_called_once_with_tx: BEGIN_ERR() == nil ==> mgdFCalls == old(mgdFCalls) + 1 && mgdFTx == T()
+//@   ensures err_rolls_back: BEGIN_ERR() == nil && mgdFRet != nil ==> r == mgdFRet && boltCommitCnt == old(boltCommitCnt)
+//@       && select(boltOp, mgdFEndCalls) == OP_TX_ROLLBACK() && select(boltRecv, mgdFEndCalls) == T()
+//@       && select(boltRollbackCnt, T()) >= select(old(boltRollbackCnt), T()) + 1
+//@   ensures nil_commits_once: BEGIN_ERR() == nil && mgdFRet == nil ==> boltCommitCnt == store(old(boltCommitCnt), T(), select(old(boltCommitCnt), T()) + 1)
+//@       && select(boltOp, mgdFEndCalls) == OP_TX_COMMIT() && select(boltRecv, mgdFEndCalls) == T()
+//@   ensures commit_error_returned: BEGIN_ERR() == nil && mgdFRet == nil ==> r == convErr(boltResult(mgdFEndCalls))
+//@   ensures only_this_tx_rolled_back: forall t Int :: {select(boltRollbackCnt, t)} t != T() ==> select(boltRollbackCnt, t) == select(old(boltRollbackCnt), t)
+//@   ensures tx_never_left_open: BEGIN_ERR() == nil ==> select(boltCommitCnt, T()) + select(boltRollbackCnt, T()) > select(old(boltCommitCnt), T()) + select(old(boltRollbackCnt), T())
+
+//@ func (*db).View(db, f, reset) (r)
+//@   property C11
+//@   ensures reset_once_before_begin: mgdResetCalls == old(mgdResetCalls) + 1 && mgdResetAtCalls == old(boltCalls) && mgdResetAtBegins == old(boltBegins)
+//@   ensures begins_once_readonly: boltBegins == old(boltBegins) + 1 && select(boltOp, old(boltCalls)) == OP_DB_BEGIN() && select(boltRecv, old(boltCalls)) == db && select(boltArg, old(boltCalls)) == 0
+//@   ensures begin_error_returned_f_not_called: BEGIN_ERR() != nil ==> r == convErr(BEGIN_ERR()) && r != nil && mgdFCalls == old(mgdFCalls) && boltCalls == old(boltCalls) + 1
+//@       && boltRollbackCnt == old(boltRollbackCnt)
+//@   ensures f_called_once_with_tx: BEGIN_ERR() == nil ==> mgdFCalls == old(mgdFCalls) + 1 && mgdFTx == T()
+//@   ensures always_rolls_back: BEGIN_ERR() == nil ==> select(boltOp, mgdFEndCalls) == OP_TX_ROLLBACK() && select(boltRecv, mgdFEndCalls) == T()
+//@       && select(boltRollbackCnt, T()) >= select(old(boltRollbackCnt), T()) + 1
+//@   ensures never_commits: boltCommitCnt == old(boltCommitCnt)
+//@   ensures f_error_first: BEGIN_ERR() == nil && mgdFRet != nil ==> r == mgdFRet
+//@   ensures rollback_error_otherwise: BEGIN_ERR() == nil && mgdFRet == nil ==> r == convErr(boltResult(mgdFEndCalls))
+//@   ensures only_this_tx_rolled_back: forall t Int :: {select(boltRollbackCnt, t)} t != T() ==> select(boltRollbackCnt, t) == select(old(boltRollbackCnt), t)
+
+// ---- Batch / Copy ---------------------------------------------------------------
+//@ func (*db).Batch$1@f(tx) (err)
+//@   trusted
+//@   requires live_tx: tx != nil && typeis(tx, *transaction) && tx.val != 0 && BTX(tx) != 0
+//@   modifies mgdFCalls, mgdFTx, mgdFRet
+//@   ensures logged: mgdFCalls == old(mgdFCalls) + 1 && mgdFTx == BTX(tx) && mgdFRet == err
+//@ func (*db).Batch$1(btx) (r)
+//@   property C11
+//@   requires nonnil: btx != nil
+//@   ensures forwards: mgdFCalls == old(mgdFCalls) + 1 && mgdFTx == btx && r == mgdFRet
+//@ func (*db).Batch(db, f) (r)
+//@   property C11
+//@   ensures delegates: boltCalls > old(boltCalls) && select(boltOp, THE_CALL()) == OP_DB_BATCH() && select(boltRecv, THE_CALL()) == db
+//@   ensures error_converted: r == THE_ERR()
+
+//@ func (*db).Copy$1(tx) (r)
+//@   property C11
+//@   ensures delegates: BOLT_LOG(OP_TX_COPY(), tx) && r == boltResult(old(boltCalls))
+//@ func (*db).Copy(db, w) (r)
+//@   property C11
+//@   ensures delegates: boltCalls > old(boltCalls) && select(boltOp, THE_CALL()) == OP_DB_VIEW() && select(boltRecv, THE_CALL()) == db
+//@   ensures error_converted: r == THE_ERR()
+
+// ---- openDB -------------------------------------------------------------------
+// Either refuses without touching bbolt (only possible when create is false:
+// the file does not exist), or opens exactly once and converts bbolt's answer.
+//@ func openDB(dbPath, noFreelistSync, create, timeout, readOnly) (r, err)
+//@   property C11
+//@   ensures refuses_or_opens: (boltCalls == old(boltCalls) && !create && r == nil && err == walletdb.ErrDbDoesNotExist)
+//@       || (BOLT_LOG(OP_OPEN(), 0) && err == THE_ERR() && typeis(r, *db) && r.val == boltRetRef(THE_CALL()))
